@@ -1,6 +1,6 @@
 #!/bin/bash
 # usage: tools/try_mutant.sh <patch.diff> <property>...   applies the patch to /repo, runs the quick checks, reverts.
-P=$1; shift
+P=$(realpath $1); shift
 git -C /repo apply "$P" || { echo "patch does not apply"; exit 2; }
 trap 'git -C /repo checkout -- . ; git -C /repo status --short | head -3' EXIT
 for p in "$@"; do
